@@ -11,7 +11,7 @@ pub const GROUPS: [&str; 3] = ["struct", "elem", "reduce"];
 
 /// Fill indices of shard `k` of `kk`: the 20 base fills belong to shard 0, the Sigma3 fills are
 /// dealt round-robin.
-fn shard_fill(nf: usize, k: usize, kk: usize) -> usize {
+pub fn shard_fill(nf: usize, k: usize, kk: usize) -> usize {
     if kk <= 1 || nf <= 20 {
         return mc::choose(nf);
     }
